@@ -94,8 +94,18 @@ GARBAGE = [
 
 # well-formed BER that the decoder may or may not survive (nesting beyond the interpreter's recursion limit): the
 # outcome may be a message or a ProtocolError, so these are not "garbage" for the replay, only for the trace driver
+def _huge_code(r: random.Random) -> bytes:
+    """A SearchResultDone / ExtendedResponse / BindResponse whose resultCode needs 5-9 content octets (an unnamed code the
+    library is free to accept or to reject - but only with its own error type)."""
+    n = r.choice((2**32, 2**40 + 1, 2**63, 2**64 + 5, -(2**40)))
+    content = n.to_bytes((n.bit_length() + 8) // 8, "big", signed=True)
+    op = r.choice((0x65, 0x78, 0x61))
+    return _tlv(0x30, _tlv(2, bytes([r.randrange(1, 4)])) + _tlv(op, _tlv(10, content) + _tlv(4, b"") + _tlv(4, r.choice((b"", b"diag")))))
+
+
 MAYBE = [
     ("deep-not-nesting", lambda r: _deep_not(r.choice((40, 400, 1200, 3000)))),
+    ("huge-result-code", _huge_code),
 ]
 
 
